@@ -560,7 +560,7 @@ theorem update2_reach (f : List ℝ → ℝ) (w : W ℝ) (params : PList ℝ) : 
     next fn1 h =>
       have r1 : Reach f w.fn fn1 := (Reach.en1 false (Reach.refl w.fn)).of_set h
       split
-      · exact r1
+      · exact Reach.en1 _ r1
       · have hl := loopGo_reach f (step2 f params) (step2_reach f params) w.vars 0
           { w := { w with fn := fn1, f1 := fn1.fval }, p := [], lastVar := none }
         rcases hs : loopGo (step2 f params) w.vars 0 { w := { w with fn := fn1, f1 := fn1.fval }, p := [], lastVar := none } with ⟨lp, e⟩
@@ -585,7 +585,7 @@ theorem update3_reach (f : List ℝ → ℝ) (w : W ℝ) (params : PList ℝ) : 
     next fn1 h =>
       have r1 : Reach f w.fn fn1 := r0.of_set h
       split
-      · exact r1
+      · exact Reach.en2 _ (Reach.en1 _ r1)
       · have hl := loopGo_reach f (step3 f params) (step3_reach f params) w.vars 0
           { w := { w with fn := fn1, f2 := fn1.fval }, p := [], lastVar := none }
         rcases hs : loopGo (step3 f params) w.vars 0 { w := { w with fn := fn1, f2 := fn1.fval }, p := [], lastVar := none } with ⟨lp, e⟩
